@@ -115,6 +115,23 @@ def sec_unitary(ctx, rng, case):
             u2 = c2.unitary(qubit_order=qs, qubits_that_should_be_present=qs) if qs else cirq.unitary(c2)
             ctx.check(L.allclose(u2, uo, 1e-7), "unrolled-forms==flat", "C12:" + name + "-unitary",
                       lambda: "%s deviates from cirq.unitary(op) by %.3g" % (name, L.maxdiff(u2, uo)), **wit)
+        # what the operation hands out is the caller's to edit: the (immutable) operation still means what its fields say
+        if qs:
+            for name, get in (("mapped_circuit()", lambda: op.mapped_circuit()), ("mapped_circuit(deep)", lambda: op.mapped_circuit(deep=True)),
+                              ("circuit.unfreeze()", lambda: op.circuit.unfreeze()), ("unroll_circuit_op", lambda: cirq.unroll_circuit_op(cirq.Circuit(op), tags_to_check=None))):
+                handed = get()
+                edit = int(rng.integers(3))
+                if edit == 0:
+                    handed.append(cirq.Y(qs[0]) ** 0.37)
+                elif edit == 1:
+                    handed.insert(0, cirq.X(qs[-1]) ** 0.21)
+                elif len(handed):
+                    handed[0] = cirq.Moment(cirq.H(qs[0]))
+                else:
+                    handed.append(cirq.H(qs[0]))
+                again = op.mapped_circuit(deep=True).unitary(qubit_order=qs, qubits_that_should_be_present=qs)
+                ctx.check(L.allclose(cirq.unitary(op), uo, 1e-9) and L.allclose(again, uo, 1e-7), "handed-out-circuits-are-copies", "C12:op-changed-by-editing:" + name,
+                          "editing the circuit returned by %s changed what the CircuitOperation means" % name, **wit)
     ctx.distinct(tuple(B.describe(items)), nontrivial=_nontrivial_tree(items) and not L.allclose(U, np.eye(2 ** n), 1e-6))
     ctx.sample({"n": n, "tree": B.describe(items)[:14]})
 
